@@ -59,7 +59,9 @@ def hncInstall (s : RState) (spec : ConnectSpec) (restored : Option SessionState
       brokerAliases := if spec.aliasMax > 0 then some (BrokerAliases.new spec.aliasMax) else none,
       out := { unackedPubrels := pending }, tracker := tracker }
   let id := (s.conns.insert conn).2
+  let s := { s with subscriptionMap := (hncSubs restored).foldl (fun m f => subscriptionMapAdd m f id) s.subscriptionMap }
   let s := { s with conns := (s.conns.insert conn).1, connectionMap := ainsert spec.clientId id s.connectionMap }
+  let s := { s with shared := rejoinGroups s.config.strategy spec.clientId tracker.requests s.shared }
   if !trackerNoDup tracker then .error (.panic "debug_assert check_tracker_duplicates (new connection)") else
   let acks := [Ack.connack id (!spec.clean && previousSession)] ++ pending.map Ack.pubrel
   let s := setConn s id { conn with acks := { committed := acks } }
@@ -89,13 +91,12 @@ theorem handleNewConnection_eq_rp2 (s : RState) (spec : ConnectSpec) :
 theorem handleDisconnection_ghost {s s' : RState} {id : Nat} {r : Option String}
     (h : handleDisconnection s id r = .ok s') :
     ∃ evs, s'.ghost = s.ghost ++ evs ∧ registeredEvents evs = [] ∧ willSetEvents evs = [] := by
-  unfold handleDisconnection at h
+  rw [handleDisconnection_eq] at h
   split at h
   · simp only [Except.ok.injEq] at h; subst h; exact ⟨[], by simp, rfl, rfl⟩
   · rename_i c hc
-    cases r <;> (try simp only [] at h) <;> split at h <;>
-      (simp only [Except.ok.injEq] at h; subst h
-       exact ⟨[.removed id c.clientId c.clean], rfl, rfl, rfl⟩)
+    refine ⟨[.removed id c.clientId c.clean], ?_, rfl, rfl⟩
+    rw [(wakeParked_wakeFrame h).ghost, (hdFinal_fields _ _ _ _).2.2.2.2.1]
 
 theorem hncTakeover_spec {s s' : RState} {spec : ConnectSpec} (h : hncTakeover s spec = .ok s') :
     s'.lastWills = s.lastWills ∧
@@ -338,7 +339,11 @@ theorem handleDevicePayload_disconnect_clears_will {s s' s1 : RState} {id : Nat}
         split at h3
         · exact (drainNotifications_data _ h3).2.2
         · simp only [Except.ok.injEq] at h3; subst h3; rfl
-      rw [handleDisconnection_lastWills h, e3, e2]
+      split at h
+      · simp at h
+      rename_i s4 h4
+      have e4 : s4.lastWills = s3.lastWills := (wakeTurnMoved_wakeFrame h4).wills
+      rw [handleDisconnection_lastWills h, e4, e3, e2]
       exact alookup_aremove_same _ _
 
 end Router
